@@ -789,4 +789,5 @@ func RunCorr(e *Env) {
 	close(work)
 	wg.Wait()
 	runCorrLateDone(e)
+	runCorrFlap(e, "C11")
 }
